@@ -208,11 +208,13 @@ claim("C06",
       "DESIGN.md section 6, C06")
 
 
-PARSER_NOTE = (" Partial as a proof: the theorems cover the implicit skip for ALL layouts (proved against the "
-               "generated WHITESPACE/COMMENT rules), the name test, and the glue on ANY parse tree of canonical shape; "
-               "that the generated grammar yields a tree of that shape for EVERY canonical statement text (the full "
-               "parser specification theorem) is not proved -- that link is the differential correspondence of the "
-               "Peg.v/Glue.v model with the implementation plus the property-text oracle campaign.")
+PARSER_NOTE = (" Coverage of the proof: the parser specification theorem (find_canonical, Proofs/FileSpec.v) holds for every "
+               "file of the canonical file language (items_ok: purely syntactic); texts outside it -- values with , or ; "
+               "inside brackets, bracketed macro calls whose first argument begins a key-value list without being a "
+               "statement, several comments on a directive line, a comment opener inside an ordinary string literal "
+               "(finding F12) -- are covered by the glue theorems on ANY parse tree of canonical shape and by the "
+               "differential correspondence of the Peg.v/Glue.v model with the implementation plus the property-text "
+               "oracle campaign.")
 
 claim("C10",
       "Theorems (Coq): C10_layout_is_skipped -- for ANY layout (whitespace run, then any number of line/block "
